@@ -20,7 +20,7 @@ import sys
 HERE = os.path.dirname(os.path.abspath(__file__))
 VERIF = os.path.dirname(HERE)
 REPO = os.environ.get('VERIF_REPO_BASE', '/repo')
-SCRATCH = os.environ.get('VERIF_SCRATCH', '/tmp/verif-selftest')
+SCRATCH = os.environ.get('VERIF_SCRATCH', '/tmp/verif-selftest-%d' % os.getpid())
 sys.path.insert(0, HERE)
 from mutants import MUTANTS, NEUTRAL  # noqa: E402
 
